@@ -27,33 +27,47 @@ theorem findDir_updateDir_ne (n m : Name) (g : Dir → Dir) (hg : ∀ d, (g d).n
     · next h =>
       simp only [findDir, findDir_updateDir_ne n m g hg hm ds]
 
-theorem loadAll_nil_of (es : List (Name × Entry)) (h : ∀ x ∈ es, loadEntry x.2 = none) : loadAll es = [] := by
-  induction es with
-  | nil => rfl
-  | cons x rest ih =>
-    obtain ⟨nm, e⟩ := x
-    have hx : loadEntry e = none := h (nm, e) (List.mem_cons_self ..)
-    simp only [loadAll, hx]
-    exact ih (fun y hy => h y (List.mem_cons_of_mem _ hy))
-
-theorem loadAll_append (a b : List (Name × Entry)) : loadAll (a ++ b) = loadAll a ++ loadAll b := by
+theorem firstLoad_of_skips (a b : List (Name × Entry)) (h : ∀ x ∈ a, loadEntry x.2 = .skip) :
+    firstLoad (a ++ b) = firstLoad b := by
   induction a with
   | nil => rfl
   | cons x rest ih =>
     obtain ⟨nm, e⟩ := x
-    simp only [List.cons_append, loadAll]
-    cases loadEntry e <;> simp [ih]
+    have hx : loadEntry e = .skip := h (nm, e) (List.mem_cons_self ..)
+    simp only [List.cons_append, firstLoad, hx]
+    exact ih (fun y hy => h y (List.mem_cons_of_mem _ hy))
 
-/-- a directory whose other entries load nothing loads exactly the saved file -/
-theorem loadAll_setEntry (f : Name) (e : Entry) (r : Report) (es : List (Name × Entry))
-    (hother : ∀ x ∈ es, x.1 ≠ f → loadEntry x.2 = none) (he : loadEntry e = some r) :
-    loadAll (setEntry f e es) = [r] := by
+theorem loadAll_of_skips (a b : List (Name × Entry)) (h : ∀ x ∈ a, loadEntry x.2 = .skip) :
+    loadAll (a ++ b) = loadAll b := by
+  induction a with
+  | nil => rfl
+  | cons x rest ih =>
+    obtain ⟨nm, e⟩ := x
+    have hx : loadEntry e = .skip := h (nm, e) (List.mem_cons_self ..)
+    simp only [List.cons_append, loadAll, hx]
+    exact ih (fun y hy => h y (List.mem_cons_of_mem _ hy))
+
+theorem skips_of_filter {f : Name} {es : List (Name × Entry)} (hother : ∀ x ∈ es, x.1 ≠ f → loadEntry x.2 = .skip) :
+    ∀ x ∈ es.filter (fun x => x.1 != f), loadEntry x.2 = .skip := by
+  intro x hx
+  rw [List.mem_filter] at hx
+  exact hother x hx.1 (by simpa using hx.2)
+
+/-- a directory whose other entries are skipped loads exactly the saved file -/
+theorem firstLoad_setEntry (f : Name) (e : Entry) (r : Report) (es : List (Name × Entry))
+    (hother : ∀ x ∈ es, x.1 ≠ f → loadEntry x.2 = .skip) (he : loadEntry e = .report r) :
+    firstLoad (setEntry f e es) = .loaded r := by
   unfold setEntry
-  rw [loadAll_append, loadAll_nil_of]
-  · simp [loadAll, he]
-  · intro x hx
-    rw [List.mem_filter] at hx
-    exact hother x hx.1 (by simpa using hx.2)
+  rw [firstLoad_of_skips _ _ (skips_of_filter hother)]
+  simp [firstLoad, he]
+
+/-- … and lists exactly one report -/
+theorem loadAll_setEntry (f : Name) (e : Entry) (r : Report) (es : List (Name × Entry))
+    (hother : ∀ x ∈ es, x.1 ≠ f → loadEntry x.2 = .skip) (he : loadEntry e = .report r) :
+    loadAll (setEntry f e es) = some [r] := by
+  unfold setEntry
+  rw [loadAll_of_skips _ _ (skips_of_filter hother)]
+  simp [loadAll, he]
 
 theorem mem_setEntry {f : Name} {e : Entry} {es : List (Name × Entry)} {x : Name × Entry} (h : x ∈ setEntry f e es) :
     x = (f, e) ∨ (x ∈ es ∧ x.1 ≠ f) := by
@@ -64,13 +78,13 @@ theorem mem_setEntry {f : Name} {e : Entry} {es : List (Name × Entry)} {x : Nam
     exact .inr ⟨h.1, by simpa using h.2⟩
   · exact .inl (by simpa using h)
 
-/-- the directory `n` after its entry `f` has been replaced by a loadable file, its other entries loading nothing -/
+/-- the directory `n` after its entry `f` has been replaced by a loadable file, its other entries being skipped -/
 theorem loadDir_after_set (fs : FS) (n f : Name) (e : Entry) (r : Report) (d : Dir) (hd : findDir n fs = some d)
-    (hother : ∀ x ∈ d.entries, x.1 ≠ f → loadEntry x.2 = none) (he : loadEntry e = some r) :
+    (hother : ∀ x ∈ d.entries, x.1 ≠ f → loadEntry x.2 = .skip) (he : loadEntry e = .report r) :
     loadDir (updateDir n (fun d => { d with entries := setEntry f e d.entries }) fs) n = .loaded r := by
   unfold loadDir
   rw [findDir_updateDir n (fun d => { d with entries := setEntry f e d.entries }) (fun _ => rfl) fs, hd]
   dsimp only [Option.map_some]
-  rw [loadAll_setEntry f e r d.entries hother he]
+  rw [firstLoad_setEntry f e r d.entries hother he]
 
 end LccModel.DirStore
